@@ -157,6 +157,7 @@ CHECKS["C01"] = {
     "level_note": "Trusted: mocktikv (itself checked by C12) and TiDB's unistore as store implementations; the history checker (harness/sim/history.go); locks are expired by advancing the virtual TSO clock.",
     "tests": [
         {"name": "TestHistories", "quick": 600, "thorough": 6000, "shards": 16, "timeout_q": 400},
+        {"name": "TestHistoriesUni", "quick": 400, "thorough": 4000, "shards": 16, "timeout_q": 400},
     ],
 }
 
@@ -164,4 +165,4 @@ CHECKS["C01"] = {
 NOT_CLAIMED = {}
 
 # commits in /repo that add build-tag-guarded hooks
-HOOK_COMMITS = []
+HOOK_COMMITS = ["1dfea34", "86272ad"]
